@@ -236,12 +236,16 @@ pub fn specs() -> Vec<Spec> {
     });
     // TCPA server (TCG ACPI spec): device flags @58 (bit0 PCI, bit1 PnP, bit2 config address
     // valid), interrupt flags @59 (bit0 edge, bit1 active low, bit2 SCI via GPE, bit3 GSI valid)
-    for zero in [false, true] {
+    // ... in every header context: the table keeps its checksum while options are applied, so the
+    // OEM revision is swept over a byte to give the checksum byte every value
+    let mut contexts: Vec<(bool, u32, String)> = vec![(false, H.2, "TCPA-server".into()), (true, H.2, "TCPA-server/zero-values".into())];
+    contexts.extend((0..256u32).map(|r| (false, r, "TCPA-server/any-header".to_string())));
+    for (zero, rev, name) in contexts {
     v.push(Spec {
-        name: if zero { "TCPA-server/zero-values".into() } else { "TCPA-server".into() },
+        name,
         opts: vec!["active_low", "edge_triggered", "sci_gpe", "gsi", "bus_is_pnp", "pci_sbdf", "config_addr", "log_area", "base_addr"],
         build: Box::new(move |seq| {
-            let mut t = tpm2::TpmServer1_2::new(H.0, H.1, H.2);
+            let mut t = tpm2::TpmServer1_2::new(H.0, H.1, rev);
             let zg = GasV { pci: false, space: 0, width: 0, offset: 0, access: 0, addr: 0, dev: 0, func: 0, reg: 0 };
             for o in seq {
                 t = match o {
